@@ -706,8 +706,8 @@ Definition lverdict (case trace : list N) : N :=
   end.
 
 (* ---- oracle for HandshakeService traces: what NotificationProtocol relies on (theorems C11_hs_...): an event
-   concerns a substream the service holds, Negotiated hands the substream out (it is gone afterwards), an
-   error leaves it in the map until the owner removes it, calls and the environment produce no events ---- *)
+   concerns a substream the service holds, Negotiated hands the substream out (it is gone afterwards), calls
+   and the environment produce no events ---- *)
 Fixpoint hcheck (held : list N) (ops : list HSModel.hop) (tr : list N) : bool :=
   match ops with
   | [] => match tr with [] => true | _ => false end
@@ -720,7 +720,7 @@ Fixpoint hcheck (held : list N) (ops : list HSModel.hop) (tr : list N) : bool :=
           match kind with
           | 0 => true
           | 1 => (was =? 1) && (is_ =? 0)
-          | 2 => (was =? 1) && (is_ =? 1)
+          | 2 => was =? 1
           | _ => false
           end && hcheck now ops' rest
       | (HSModel.HCall _ | HSModel.HEnv _ _), 0 :: h0 :: h1 :: h2 :: h3 :: h4 :: h5 :: len :: rest =>
